@@ -34,7 +34,7 @@ CHECKS = {
  },
  'C02': {
   'engine': 'D+K', 'design_ref': 'DESIGN.md §5 C02',
-  'technique': 'Verus-discharged declaration obligations per response member (key, type, absent-never-null) in all 8 configurations; Kani contract on Response::serialize for small capacities against a reference CBOR encoder',
+  'technique': 'Verus-discharged declaration obligations per response member (key, type, absent-never-null, map shape) in all 8 configurations; Verus proof of the glue Response::serialize (status byte, [A0] collapse, GetNextAssertion == GetAssertion) for every capacity; Kani byte-level checks for small responses',
   'text': 'Per member of every response struct and nested map, in every feature configuration: emitted under its specification key, Option members skipped with Option::is_none (absent, never null), plain members always emitted, string enums emitted as their spelling, attestation statements untagged. The glue (status byte, [A0] collapse, GetNextAssertion arm) is checked by Kani on the real Response::serialize for small N (bounded).',
   'note': 'derive contracts A1-A3, A5 assumed; cbor-smol scalar heads checked (A6), COSE key order assumed (A7); byte-level equality of the large responses is out of CBMC\'s reach. One known finding (capacity 1).' + _D,
  },
@@ -123,10 +123,10 @@ CHECKS = {
   'note': 'A1-A3, A5 assumed.' + _D,
  },
  'C17': {
-  'engine': 'K', 'design_ref': 'DESIGN.md §5 C17, §7',
-  'technique': 'Kani contract harnesses on the real Response::serialize::<N> for a finite set of capacities, bodies crossing each N, symbolic pre-fill',
-  'text': 'Bounded: for N in {1,3,4,5,8,16} (+2,3,16 thorough) and ClientPin / LargeBlobs / parameter-less responses with symbolic members and symbolic buffer pre-fill, the buffer ends as [00]||body when it fits, else [7F]; never truncated. One known finding (capacity 1, member-less response).',
-  'note': 'N is a const generic: finite instantiations only; large response kinds not explored (CBMC memory).',
+  'engine': 'V+K', 'design_ref': 'DESIGN.md §5 C17, §10',
+  'technique': 'Verus proof of ctap2::Response::serialize (verbatim) for every capacity N >= 1 against "complete message or exactly [7F]"; Kani harnesses on the real code for small N as backstop',
+  'text': 'Unbounded in the capacity N, the response (all kinds; bodies uninterpreted) and the previous buffer content: the buffer ends as [00]||body when that fits N, else exactly [7F]; never truncated; a member-less map and the parameter-less responses give [00]. One known finding (capacity 1 with a member-less map body) is excluded by the precondition and demonstrated by its own Kani harness.',
+  'note': 'assumed contracts: heapless resize_default / split_first_mut, cbor_serialize writes its encoding at the start of the buffer iff it fits (A6); slice == byte-array literal goes through a trusted wrapper.',
  },
  'C18': {
   'engine': 'V+K', 'design_ref': 'DESIGN.md §5 C18',
